@@ -72,10 +72,10 @@ local macro "c12b_tail" src:term "," tgt:term "," fl:term "," hres:term : tactic
     intro a ha s
     obtain ⟨f, hf, rfl⟩ := List.mem_map.mp ha
     simp only [osPathJoin_ssC12b, PyFSC12b.lift_ok, pure_bind, exists_bind_strC12b, truthy_bool, existsUnderC12b]
-    by_cases hx : S.fs.exists (pathResolve (posixJoin $src f)) = true
-    · simp only [hx, Bool.not_true, cond_false, PyFSC12b.run_pure, if_true]
-      exact ⟨_, rfl⟩
-    · simp only [hx, Bool.not_false, cond_true, PyFSC12b.throw_bind, PyFSC12b.run_throw, Bool.false_eq_true, if_false]
+    cases hx : S.fs.exists (pathResolve (posixJoin $src f)) <;>
+      simp only [hx, Bool.not_true, Bool.not_false, cond_true, cond_false, PyFSC12b.run_pure, PyFSC12b.throw_bind,
+        PyFSC12b.run_throw, if_true, if_false, Bool.false_eq_true] <;>
+      first | exact ⟨_, rfl⟩ | rfl
   case ve =>
     intro hall
     rw [List.all_map] at hall
@@ -141,7 +141,7 @@ theorem src_copy_toC12b (h : HTMLDependency_copy_toC12b_available = true) (h0 : 
     obtain ⟨-, -, -, gscript, gsheet, -, -⟩ := getattr_dep d hh head pdir
     by_cases hempty : (sourcePathMap d none iv).source = []
     · unfold HTMLDependency_copy_toC12b
-      simp [hspm, hsrc, hempty, pyEq_str_strC12b, copyTo, embOutC12b, embRes, PyFSC12b.run_pure]
+      simp [hspm, hsrc, hempty, pyEq_str_strC12b, truthy_strC12b, copyTo, embOutC12b, embRes, PyFSC12b.run_pure]
     · have hne : (sourcePathMap d none iv).source.isEmpty = false := by
         cases hq : (sourcePathMap d none iv).source <;> simp_all
       have hbeq : ((sourcePathMap d none iv).source == []) = false := by
@@ -154,7 +154,8 @@ theorem src_copy_toC12b (h : HTMLDependency_copy_toC12b_available = true) (h0 : 
         unfold HTMLDependency_copy_toC12b
         simp only [ite_condC12b]
         simp only [hspm, cond_false, cond_true, hsrc, hhref, PyFSC12b.lift_ok, pure_bind, getattr_allfilesC12b, truthy_bool,
-          pyEq_str_strC12b, pyIter_list, hbeq, haf, mkPath_strC12b, glob_bind_pathC12b, globEntries_okC12b S _ _ hdec]
+          pyEq_str_strC12b, truthy_strC12b, hne, pyIter_list, hbeq, haf, mkPath_strC12b, glob_bind_pathC12b, globEntries_okC12b S _ _ hdec,
+          Bool.not_true, Bool.not_false]
         refine comp_loop_kC12b (fun n => pathObjC12b (posixJoin (sourcePathMap d none iv).source (decNameC12b S n))) PVal.str
           (fun n => .ok (decNameC12b S n)) (S.fs.topLevel (pathResolve (sourcePathMap d none iv).source)) _ S _ _ ?s1 ?k1
         case s1 =>
@@ -172,7 +173,7 @@ theorem src_copy_toC12b (h : HTMLDependency_copy_toC12b_available = true) (h0 : 
         unfold HTMLDependency_copy_toC12b
         simp only [ite_condC12b]
         simp only [hspm, cond_false, cond_true, hsrc, hhref, PyFSC12b.lift_ok, pure_bind, getattr_allfilesC12b, truthy_bool, pyEq_str_strC12b,
-          gscript, gsheet, pyIter_list, hbeq, haf, Bool.false_eq_true, if_false]
+          gscript, gsheet, pyIter_list, truthy_strC12b, hne, hbeq, haf, Bool.false_eq_true, if_false, Bool.not_true, Bool.not_false]
         refine comp_loop_kC12b embKVs PVal.str (keyStepC12b dtKSrc) d.script _ S _ _ ?s1 ?k1
         case s1 =>
           intro s _ acc
@@ -255,19 +256,25 @@ theorem src_doc_save_html_recC12b (h : HTMLDocument_save_htmlC12b_available = tr
       | some l => cases l <;> rfl
     unfold HTMLDocument_save_htmlC12b
     simp only [ite_condC12b]
-    simp only [mkPath_strC12b, PyFSC12b.lift_ok, pure_bind, resolve_bind_pathC12b, pathParent_normC12b _ hnorm, pyStr_pathC12b]
-    rw [hdest]
     simp only [hrec]
     cases hr : Doc.docRender cfg content kw libdir iv with
     | error e =>
-      simp only [embRes, PyFSC12b.lift_error, PyFSC12b.throw_bind, PyFSC12b.run_throw, saveDoc, hr, embOutStrC12b]
+      -- (whether `render` is called before or after the destination is computed)
+      simp only [embRes, mkPath_strC12b, PyFSC12b.lift_ok, PyFSC12b.lift_error, pure_bind, PyFSC12b.throw_bind,
+        resolve_bind_pathC12b, pathParent_normC12b _ hnorm, pyStr_pathC12b, PyFSC12b.run_throw]
+      first | rw [hdest] | skip
+      try simp only [embRes, PyFSC12b.lift_error, PyFSC12b.throw_bind, PyFSC12b.run_throw]
+      simp only [saveDoc, hr, embOutStrC12b, embRes]
     | ok r =>
       have hk1 : pyGetItem (embRenderedC12b pd r) (PVal.str ['d', 'e', 'p', 'e', 'n', 'd', 'e', 'n', 'c', 'i', 'e', 's'])
           = .ok (.list ((depTriplesC12b r.deps).map (embTripleC12b pd))) := by
         simp [embRenderedC12b, pyGetItem, Py.dictGet?, kDepsC12b, kHtmlC12b]
       have hk2 : pyGetItem (embRenderedC12b pd r) (PVal.str ['h', 't', 'm', 'l']) = .ok (.str r.html) := by
         simp [embRenderedC12b, pyGetItem, Py.dictGet?, kDepsC12b, kHtmlC12b]
-      simp only [embRes, PyFSC12b.lift_ok, pure_bind, hk1, hk2, pyIter_list]
+      simp only [embRes, mkPath_strC12b, PyFSC12b.lift_ok, pure_bind, resolve_bind_pathC12b, pathParent_normC12b _ hnorm,
+        pyStr_pathC12b, hk1, hk2, pyIter_list]
+      first | rw [hdest] | skip
+      try simp only [embRes, PyFSC12b.lift_ok, pure_bind, hk1, hk2, pyIter_list]
       have hmodel : saveDoc cfg content kw file (S.resolve file) libdir iv S.fs
           = match foldFSC12b (fun (t : DepInfo × Bool × Nodes) => copyTo t.1 (destDir (S.resolve file) libdir) iv)
               (depTriplesC12b r.deps) S.fs with
